@@ -539,6 +539,11 @@ def formulas(draw, profile, variables=None, fin=False):
 # data
 # --------------------------------------------------------------------------
 
+def tiny_values():
+    """Few distinct small values: ties, zeros and repeated samples are frequent."""
+    return st.sampled_from([0.0, 0.0, 1.0, -1.0, 2.0, -2.0, 0.5, 3.0])
+
+
 def values(var_bound=8.0):
     small = st.integers(-16, 16).map(lambda k: k / 2.0)
     fine = st.integers(-64, 64).map(lambda k: k / 8.0)
@@ -558,7 +563,8 @@ def trace_lengths(max_n, min_n=1):
 def traces(draw, variables, max_n=12, n=None, var_bound=8.0):
     if n is None:
         n = draw(trace_lengths(max_n))
-    vs = values(var_bound)
+    # one trace in five uses very few distinct values (zeros, ties, plateaus)
+    vs = tiny_values() if draw(st.integers(0, 4)) == 0 else values(var_bound)
     out = {}
     for v in variables:
         out[v] = draw(st.lists(vs, min_size=n, max_size=n))
